@@ -21,6 +21,14 @@ LINK = ('-L{repo}/_build/lib -lopmcommon -L/root/miniconda/lib -lfmt -lboost_sys
         '-Wl,-rpath,/root/miniconda/lib')
 
 
+def driver_source(prop, unit):
+    for cand in (unit, unit.split('_')[0], re.sub(r'\d+$', '', unit)):
+        src = os.path.join(VERIF, 'replay', 'drivers', '%s_%s.cpp' % (prop, cand))
+        if os.path.exists(src):
+            return src
+    return None
+
+
 def build_driver(prop, unit):
     src = os.path.join(VERIF, 'replay', 'drivers', '%s_%s.cpp' % (prop, unit))
     if not os.path.exists(src) and '_' in unit:
@@ -84,7 +92,9 @@ def write_replay(prop, r, oid, line, desc, oname, builders):
     }
     reproduced = False
     exe, why = build_driver(prop, r.job.unit)
-    if exe and (inputs or r.job.kind == 'coverage'):
+    # a driver marked REPLAY_SEARCH does not decode the model: it searches the real code for a failing input itself
+    searches = bool(exe) and 'REPLAY_SEARCH' in open(driver_source(prop, r.job.unit)).read()
+    if exe and (inputs or r.job.kind == 'coverage' or searches):
         with open(path, 'w') as f:
             json.dump(rec, f, indent=1)
         kv = write_kv(path, rec)
